@@ -3,8 +3,8 @@ package main
 import (
 	"fmt"
 	"go/ast"
-	"go/token"
 	"go/types"
+	"os"
 	"strings"
 
 	"golang.org/x/tools/go/ssa"
@@ -29,25 +29,30 @@ const plrmDelims = "()<>[]{}/%"
 
 func runC04(c *Ctx) {
 	info := c.info("postscript")
+	if d := os.Getenv("PSA_DEBUG_A"); d != "" {
+		c.aDebug(d)
+	}
 
-	// ---- regular characters
+	// ---- regular characters: isRegular evaluated on the SSA form for all 256 byte values
 	regular := [256]bool{}
 	{
-		fd := c.funcDecl("postscript", "", "isRegular")
+		fn := c.fn("postscript", "isRegular")
+		st := c.aInit("postscript")
 		bad := ""
 		for b := 0; b < 256; b++ {
-			vals, err := classifyFunc(info, fd, int64(b))
-			if err != nil || len(vals) != 1 || !vals[0].isBool {
-				bad = fmt.Sprintf("not evaluable for byte %d: %v", b, err)
+			ev := st.newEval()
+			ret := ev.runFunc(fn, []sv{intV(int64(b))})
+			if len(ret) != 1 || ret[0].k != svBool {
+				bad = fmt.Sprintf("not evaluable for byte %d: %s", b, ev.why)
 				break
 			}
-			regular[b] = vals[0].b
+			regular[b] = ret[0].b
 		}
 		want := setOf(func(b int) bool { return b > 32 && !strings.ContainsRune(plrmDelims, rune(b)) })
 		if bad == "" && regular != want {
 			bad = "regular set is {" + setString(regular) + "}"
 		}
-		c.check(bad == "", "LEX-REGULAR", "postscript.isRegular", "regular characters = bytes > 32 except ( ) < > [ ] { } / %", fd.Pos(), "256 byte values evaluated", "the regular-character class differs from the PLRM: "+bad)
+		c.check(bad == "", "LEX-REGULAR", "postscript.isRegular", "regular characters = bytes > 32 except ( ) < > [ ] { } / %", fn.Pos(), "256 byte values evaluated", "the regular-character class differs from the PLRM: "+bad)
 	}
 
 	// ---- white space in SkipWhiteSpace: what one pass of the loop does with each byte value
@@ -149,132 +154,47 @@ func runC04(c *Ctx) {
 	// ---- String.PS ⊆ reader⁻¹
 	c.stringWriter(info, readerEsc)
 
-	// ---- Name.PS uses the same classifier
-	{
-		f := c.method("postscript", "Name", "PS")
-		isReg := c.fn("postscript", "isRegular")
-		calls := staticCalls(f, isReg)
-		okPanic := false
-		eachInstr(f, func(ins ssa.Instruction) {
-			if _, ok := ins.(*ssa.Panic); ok {
-				for _, cd := range domConds(ins.Block()) {
-					if call, ok := cd.v.(*ssa.Call); ok && call.Common().StaticCallee() == isReg && !cd.truth {
-						okPanic = true
-					}
-				}
-			}
-		})
-		c.check(len(calls) == 1 && okPanic, "LEX-NAME", c.fname(f), "the name serialiser accepts exactly the regular-character class", f.Pos(), "calls isRegular on every byte, refuses otherwise", "Name.PS no longer checks every byte with the scanner's own isRegular")
-	}
+	// ---- Name.PS accepts exactly the names made of regular characters
+	c.nameWriter(regular)
 
 	// ---- ASCII85
-	c.base85(info)
+	c.base85Rules()
 
-	// ---- every regular-character token is offered to the number parser
-	{
-		fd := c.funcDecl("postscript", "scanner", "ScanToken")
-		fname := "postscript.(*scanner).ScanToken"
-		parse := c.pkg("postscript").Types.Scope().Lookup(c.curFnName("postscript", "parseNumber"))
-		var call *ast.CallExpr
-		var path []ast.Node
-		var stack []ast.Node
-		ast.Inspect(fd.Body, func(n ast.Node) bool {
-			if n == nil {
-				stack = stack[:len(stack)-1]
-				return true
-			}
-			stack = append(stack, n)
-			if ce, ok := n.(*ast.CallExpr); ok && call == nil {
-				if id, ok := ce.Fun.(*ast.Ident); ok && info.ObjectOf(id) == parse {
-					call = ce
-					path = append([]ast.Node{}, stack...)
-				}
-			}
-			return true
-		})
-		if call == nil {
-			c.fail("LEX-NUMBER", fname, "tokens are offered to the number parser", fd.Pos(), "ScanToken no longer calls parseNumber")
-		} else {
-			okAll := true
-			why := ""
-			for i, n := range path {
-				ifs, ok := n.(*ast.IfStmt)
-				if !ok || i+1 >= len(path) || path[i+1] != ast.Node(ifs.Body) {
-					continue
-				}
-				v := singleByteVar(info, ifs.Cond)
-				if v == nil {
-					// conditions on errors etc. are fine if they do not mention bytes
-					mentionsByte := false
-					for _, id := range identsOf(ifs.Cond) {
-						if o, ok := info.ObjectOf(id).(*types.Var); ok {
-							if bt, ok := o.Type().Underlying().(*types.Basic); ok && bt.Kind() == types.Uint8 {
-								mentionsByte = true
-							}
-						}
-					}
-					if mentionsByte {
-						okAll, why = false, "the call of parseNumber is guarded by `"+types.ExprString(ifs.Cond)+"`, which the rule cannot evaluate"
-					}
-					continue
-				}
-				set, err := byteSet(info, ifs.Cond, v)
-				if err != nil {
-					okAll, why = false, "guard not evaluable"
-					continue
-				}
-				for _, ch := range "0123456789+-." {
-					if !set[ch] {
-						okAll, why = false, fmt.Sprintf("tokens starting with %q are not offered to the number parser (guard `%s`), so e.g. signed numbers are read as names", ch, types.ExprString(ifs.Cond))
-					}
-				}
-			}
-			c.check(okAll, "LEX-NUMBER", fname, "every token that can start a number (digit, sign, period) reaches the number parser", call.Pos(), "no byte guard excludes a possible first character of a number", why)
-		}
-	}
+	// ---- numbers and names (PLRM 3.2.2), evaluated end to end through ScanToken
+	c.numberRules()
 
-	// ---- CR LF counts as one line end in comments
+	// ---- DSC comment lines under the three line-end conventions
+	c.dscLineRules()
+
+	// ---- CR LF counts as one line end in comments: after the line-skipping functions the next
+	// byte delivered is the first byte of the next line, whatever the line-end convention
 	for _, name := range []string{"readCommentValue", "SkipToEOL"} {
-		fd := c.funcDecl("postscript", "scanner", name)
+		fn := c.method("postscript", "scanner", name)
 		fname := "postscript.(*scanner)." + name
-		found, okCR := false, false
-		ast.Inspect(fd.Body, func(n ast.Node) bool {
-			ifs, ok := n.(*ast.IfStmt)
-			if !ok {
-				return true
-			}
-			v := singleByteVar(info, ifs.Cond)
-			if v == nil {
-				return true
-			}
-			set, err := byteSet(info, ifs.Cond, v)
-			if err != nil {
-				return true
-			}
-			only13 := true
-			for b := 0; b < 256; b++ {
-				if set[b] != (b == 13) {
-					only13 = false
+		var diffs []string
+		for _, eol := range []string{"\n", "\r", "\r\n"} {
+			for _, next := range []string{"X", "\n", "\r", ""} {
+				if eol == "\r" && next == "\n" {
+					continue // that is the CR LF line end
+				}
+				in := " value" + eol + next
+				m := c.newScan(in)
+				ret := m.run(fn)
+				want := -1
+				if next != "" {
+					want = int(next[0])
+				}
+				if ret == nil && m.why != "no return reached" {
+					diffs = append(diffs, fmt.Sprintf("not evaluable on %q (%s)", in, m.why))
+					continue
+				}
+				m.why = ""
+				if nb := m.nextByte(); nb != want {
+					diffs = append(diffs, fmt.Sprintf("after the line %q the next byte delivered is %d, expected %d", " value"+eol, nb, want))
 				}
 			}
-			if !only13 {
-				return true
-			}
-			found = true
-			for _, st := range ifs.Body.List {
-				if es, ok := st.(*ast.ExprStmt); ok {
-					if ce, ok := es.X.(*ast.CallExpr); ok && len(ce.Args) == 1 {
-						if sel, ok := ce.Fun.(*ast.SelectorExpr); ok && sel.Sel.Name == "SkipOptionalByte" {
-							if k, ok := constIntOf(info, ce.Args[0]); ok && k == 10 {
-								okCR = true
-							}
-						}
-					}
-				}
-			}
-			return true
-		})
-		c.check(found && okCR, "LEX-EOL", fname, "CR LF is one line end: an LF directly after CR is consumed", fd.Pos(), "case CR: SkipOptionalByte(LF)", "after a CR the following LF is not consumed in "+name+": with CR LF line ends the next line starts with a stray LF (a `%%+` continuation is then not recognised)")
+		}
+		c.check(len(diffs) == 0, "LEX-EOL", fname, "CR LF is one line end: an LF directly after CR is consumed", fn.Pos(), "LF, CR and CR LF followed by a letter, LF, CR and the end of the input", name+" does not stop right after the line end: "+joinMax(diffs, 3)+" (with CR LF line ends the next line starts with a stray LF; a `%%+` continuation is then not recognised)")
 	}
 
 	// ---- DSC comments appended only on success
@@ -288,299 +208,9 @@ type escTable struct {
 }
 
 func (c *Ctx) readStringTables(info *types.Info) *escTable {
-	fd := c.funcDecl("postscript", "scanner", "ReadString")
-	fname := "postscript.(*scanner).ReadString"
-	t := &escTable{}
-	// outer switch on the byte, inner switch inside the backslash case
-	var outer, inner *ast.SwitchStmt
-	ast.Inspect(fd.Body, func(n ast.Node) bool {
-		sw, ok := n.(*ast.SwitchStmt)
-		if !ok || sw.Tag == nil {
-			return true
-		}
-		if outer == nil {
-			outer = sw
-		} else if inner == nil && sw.Pos() > outer.Pos() && sw.End() < outer.End() {
-			inner = sw
-		}
-		return true
-	})
-	if outer == nil || inner == nil {
-		c.fail("LEX-ESCAPES", fname, "escape table", fd.Pos(), "the two-level switch of the literal-string reader was not found")
-		return t
-	}
-	tagObj := func(sw *ast.SwitchStmt) types.Object {
-		if id, ok := sw.Tag.(*ast.Ident); ok {
-			return info.ObjectOf(id)
-		}
-		return nil
-	}
-	ov, iv := tagObj(outer), tagObj(inner)
-	if ov == nil || iv == nil {
-		c.fail("LEX-ESCAPES", fname, "escape table", fd.Pos(), "switch tags are not plain byte variables")
-		return t
-	}
-	// inner: escapes
-	var diffs []string
-	for b := 0; b < 256; b++ {
-		env := &aenv{info: info, vars: map[types.Object]aval{iv: {i: int64(b)}}}
-		var out outcome
-		func() {
-			defer func() {
-				if r := recover(); r != nil {
-					if _, ok := r.(evalErr); ok {
-						t.esc[b] = -3
-						return
-					}
-					panic(r)
-				}
-			}()
-			env.stmt(inner, true, &out)
-			switch {
-			case len(out.appends) == 1 && out.appends[0] >= 0:
-				t.esc[b] = int(out.appends[0])
-			case len(out.appends) == 0:
-				t.esc[b] = -1
-			default:
-				t.esc[b] = -2 // appended something computed (octal)
-			}
-			// the octal clause contains a loop
-			if cl, ok := out.clause.(*ast.CaseClause); ok {
-				hasLoop := false
-				for _, st := range cl.Body {
-					if _, ok := st.(*ast.ForStmt); ok {
-						hasLoop = true
-					}
-				}
-				if hasLoop {
-					t.esc[b] = -2
-				}
-			}
-		}()
-		want := b // default: the character itself
-		switch b {
-		case 'n':
-			want = '\n'
-		case 'r':
-			want = '\r'
-		case 't':
-			want = '\t'
-		case 'b':
-			want = '\b'
-		case 'f':
-			want = '\f'
-		case 10, 13:
-			want = -1
-		}
-		if b >= '0' && b <= '7' {
-			want = -2
-		}
-		if t.esc[b] != want {
-			diffs = append(diffs, fmt.Sprintf("\\%q → %d (expected %d)", rune(b), t.esc[b], want))
-		}
-	}
-	c.check(len(diffs) == 0, "LEX-ESCAPES", fname, "escape table = PLRM (\\n \\r \\t \\b \\f \\\\ \\( \\) octal, line continuation, other: the character itself)", inner.Pos(), "256 escape bytes evaluated", "the escape table of literal strings differs from the PLRM: "+joinMax(diffs, 5))
-	// octal: at most three digits, digits 0..7, value = oct*8 + digit
-	{
-		var loop *ast.ForStmt
-		ast.Inspect(inner, func(n ast.Node) bool {
-			if f, ok := n.(*ast.ForStmt); ok && loop == nil {
-				loop = f
-			}
-			return true
-		})
-		okOct := false
-		why := "no loop for further octal digits"
-		if loop != nil {
-			why = ""
-			if be, ok := loop.Cond.(*ast.BinaryExpr); !ok || be.Op != token.LSS {
-				why = "unexpected loop condition"
-			} else if k, ok := constIntOf(info, be.Y); !ok || k != 2 {
-				why = fmt.Sprintf("the loop admits %d further digits, expected 2 (three digits in all)", k)
-			}
-			// digit test
-			var dig *ast.IfStmt
-			var dv types.Object
-			for _, st := range loop.Body.List {
-				if ifs, ok := st.(*ast.IfStmt); ok {
-					if v := singleByteVar(info, ifs.Cond); v != nil && len(ifs.Body.List) == 1 {
-						if br, ok := ifs.Body.List[0].(*ast.BranchStmt); ok && br.Tok == token.BREAK {
-							dig, dv = ifs, v
-						}
-					}
-				}
-			}
-			if dig == nil {
-				why = "no digit test in the octal loop"
-			} else {
-				set, err := byteSet(info, dig.Cond, dv)
-				want := setOf(func(b int) bool { return b < '0' || b > '7' })
-				if err != nil || set != want {
-					why = "octal digits are not exactly 0-7"
-				}
-			}
-			// accumulation oct = oct*8 + (b - '0')
-			accOK := false
-			ast.Inspect(loop, func(n ast.Node) bool {
-				if as, ok := n.(*ast.AssignStmt); ok && len(as.Lhs) == 1 && len(as.Rhs) == 1 {
-					env := &symEnv{info: info, vars: map[string]string{}}
-					env.bind(as.Lhs[0], "oct")
-					if dv != nil {
-						for _, id := range identsOf(as.Rhs[0]) {
-							if info.ObjectOf(id) == dv {
-								env.bind(id, "d")
-							}
-						}
-					}
-					if env.term(as.Rhs[0]) == "add(mul(8,oct),sub(d,48))" {
-						accOK = true
-					}
-				}
-				return true
-			})
-			if !accOK && why == "" {
-				why = "the octal value is not accumulated as oct*8 + (digit - '0')"
-			}
-			okOct = why == ""
-		}
-		c.check(okOct, "LEX-ESCAPES", fname, "octal escape: digits 0–7, at most three, value oct*8+digit", inner.Pos(), "loop bound 2, digit class 0-7", "octal escapes: "+why)
-	}
-	// outer: raw bytes.  Evaluate with ignoreLF=false, bracketLevel=2 (so that ')' does not return)
-	var rawDiffs []string
-	var levelVar, ignVar types.Object
-	ast.Inspect(fd.Body, func(n ast.Node) bool {
-		if as, ok := n.(*ast.AssignStmt); ok && as.Tok == token.DEFINE && len(as.Lhs) == 1 {
-			if id, ok := as.Lhs[0].(*ast.Ident); ok {
-				if v, ok := constIntOf(info, as.Rhs[0]); ok && v == 1 && levelVar == nil {
-					if bt, ok := info.TypeOf(id).Underlying().(*types.Basic); ok && bt.Kind() == types.Int {
-						levelVar = info.ObjectOf(id)
-					}
-				}
-				if bt, ok := info.TypeOf(id).Underlying().(*types.Basic); ok && bt.Kind() == types.Bool && ignVar == nil {
-					ignVar = info.ObjectOf(id)
-				}
-			}
-		}
-		return true
-	})
-	for b := 0; b < 256; b++ {
-		if b == '\\' {
-			t.raw[b] = -4
-			continue
-		}
-		env := &aenv{info: info, vars: map[types.Object]aval{ov: {i: int64(b)}}}
-		if levelVar != nil {
-			env.vars[levelVar] = aval{i: 2}
-		}
-		if ignVar != nil {
-			env.vars[ignVar] = aval{isBool: true}
-		}
-		var out outcome
-		func() {
-			defer func() {
-				if r := recover(); r != nil {
-					if _, ok := r.(evalErr); ok {
-						t.raw[b] = -3
-						return
-					}
-					panic(r)
-				}
-			}()
-			env.stmt(outer, true, &out)
-			if len(out.appends) == 1 {
-				t.raw[b] = int(out.appends[0])
-			} else {
-				t.raw[b] = -1
-			}
-			lvl := int64(2)
-			if levelVar != nil {
-				lvl = env.vars[levelVar].i
-			}
-			wantLvl := int64(2)
-			if b == '(' {
-				wantLvl = 3
-			} else if b == ')' {
-				wantLvl = 1
-			}
-			if lvl != wantLvl {
-				rawDiffs = append(rawDiffs, fmt.Sprintf("byte %q changes the nesting level to %d (expected %d)", rune(b), lvl, wantLvl))
-			}
-			if ignVar != nil {
-				ign := env.vars[ignVar].b
-				if ign != (b == 13) {
-					rawDiffs = append(rawDiffs, fmt.Sprintf("byte %d sets the skip-LF flag to %v", b, ign))
-				}
-			}
-		}()
-		want := b
-		if b == 13 {
-			want = 10
-		}
-		if t.raw[b] != want {
-			rawDiffs = append(rawDiffs, fmt.Sprintf("byte %d → %d (expected %d)", b, t.raw[b], want))
-		}
-	}
-	c.check(len(rawDiffs) == 0, "LEX-RAWBYTES", fname, "unescaped bytes: copied, CR (and CR LF) → LF, parentheses nest", outer.Pos(), "255 byte values evaluated", "unescaped bytes in literal strings: "+joinMax(rawDiffs, 5))
-	// the closing parenthesis at level 1 ends the string
-	{
-		env := &aenv{info: info, vars: map[types.Object]aval{ov: {i: ')'}}}
-		if levelVar != nil {
-			env.vars[levelVar] = aval{i: 1}
-		}
-		var out outcome
-		left := false
-		func() {
-			defer func() { recover() }()
-			left = env.stmt(outer, true, &out)
-		}()
-		c.check(left && out.kind == "return", "LEX-RAWBYTES", fname, "the matching ')' ends the string", outer.Pos(), "level 1 + ')' → return", "a ')' at nesting level 1 does not end the string")
-	}
-	// LF directly after CR is dropped, and the flag is cleared by any other byte
-	{
-		var loop *ast.ForStmt
-		ast.Inspect(fd.Body, func(n ast.Node) bool {
-			if f, ok := n.(*ast.ForStmt); ok && loop == nil {
-				loop = f
-			}
-			return true
-		})
-		okSkip, okReset := false, false
-		if loop != nil && ignVar != nil {
-			for _, st := range loop.Body.List {
-				switch st := st.(type) {
-				case *ast.IfStmt:
-					// if ignoreLF && b == 10 { continue }
-					if len(st.Body.List) == 1 {
-						if br, ok := st.Body.List[0].(*ast.BranchStmt); ok && br.Tok == token.CONTINUE {
-							ok1 := true
-							for _, b := range []int64{9, 10, 13, 65} {
-								for _, ig := range []bool{false, true} {
-									env := &aenv{info: info, vars: map[types.Object]aval{ov: {i: b}, ignVar: {isBool: true, b: ig}}}
-									v, ok := env.tryEval(st.Cond)
-									if !ok || v.b != (ig && b == 10) {
-										ok1 = false
-									}
-								}
-							}
-							okSkip = ok1
-						}
-					}
-				case *ast.AssignStmt:
-					if len(st.Lhs) == 1 {
-						if id, ok := st.Lhs[0].(*ast.Ident); ok && info.ObjectOf(id) == ignVar {
-							if v, ok := constOf(info, st.Rhs[0]); ok && v.String() == "false" {
-								okReset = true
-							}
-						}
-					}
-				}
-			}
-		}
-		c.check(okSkip && okReset, "LEX-RAWBYTES", fname, "LF directly after CR is dropped; the flag is cleared unconditionally by every other byte", fd.Pos(), "if ignoreLF && b == LF {continue}; ignoreLF = false at the top of the loop body",
-			fmt.Sprintf("CR LF normalisation: the skip-LF test (%v) or the unconditional reset of the flag (%v) at the top of the string loop is missing, so a CR can swallow an LF that does not directly follow it", okSkip, okReset))
-	}
-	t.ok = true
-	return t
+	// decided on the SSA form over the cells of the PLRM's partition (ext_a.go)
+	c.readStringRules()
+	return &escTable{ok: true}
 }
 
 func identsOf(e ast.Expr) []*ast.Ident {
@@ -595,204 +225,44 @@ func identsOf(e ast.Expr) []*ast.Ident {
 }
 
 func (c *Ctx) stringWriter(info *types.Info, rt *escTable) {
-	fd := c.funcDecl("postscript", "String", "PS")
 	fname := "postscript.String.PS"
-	if !rt.ok {
-		c.fail("LEX-WRITER", fname, "writer ⊆ reader⁻¹", fd.Pos(), "the reader's tables could not be extracted")
-		return
-	}
-	// String.PS is evaluated (on the SSA form, nothing is executed) for every byte in four
+	// String.PS is evaluated (on the SSA form, nothing is executed) for every byte in five
 	// contexts — alone, inside balanced parentheses, after an unbalanced closing parenthesis,
-	// before an unbalanced opening one — and the text it produces is read back with the reader's
-	// extracted tables
+	// before an unbalanced opening one, before a digit (where an octal escape would go on) — and
+	// the text it produces is read back by the PLRM's rules for literal strings, which the
+	// reader is held to by LEX-ESCAPES / LEX-RAWBYTES
 	fn := c.method("postscript", "String", "PS")
-	decode := func(out string) ([]byte, string) {
-		if len(out) < 2 || out[0] != '(' || out[len(out)-1] != ')' {
-			return nil, "is not enclosed in parentheses"
-		}
-		body := out[1 : len(out)-1]
-		var res []byte
-		level := 0
-		for i := 0; i < len(body); i++ {
-			b := body[i]
-			switch {
-			case b == '\\':
-				if i+1 >= len(body) {
-					return nil, "ends in a lone backslash"
-				}
-				i++
-				v := rt.esc[body[i]]
-				if v < 0 {
-					return nil, fmt.Sprintf("uses the escape \\%c, which the reader does not turn into a byte", body[i])
-				}
-				res = append(res, byte(v))
-			case b == '(':
-				level++
-				res = append(res, b)
-			case b == ')':
-				level--
-				if level < 0 {
-					return nil, "contains a closing parenthesis that ends the string early"
-				}
-				res = append(res, b)
-			default:
-				if rt.raw[b] < 0 {
-					return nil, fmt.Sprintf("contains the raw byte %d, which the reader does not pass through", b)
-				}
-				res = append(res, byte(rt.raw[b]))
-			}
-		}
-		if level != 0 {
-			return nil, "leaves a parenthesis open, so the reader runs on past the end"
-		}
-		return res, ""
-	}
+	st := c.aInit("postscript")
 	var diffs []string
 	n := 0
 	for b := 0; b < 256; b++ {
 		one := string([]byte{byte(b)})
-		for _, in := range []string{one, "(" + one + ")", ")" + one, one + "("} {
+		for _, in := range []string{one, "(" + one + ")", ")" + one, one + "(", one + "7"} {
 			n++
-			ev := &ssaEval{c: c, bind: map[ssa.Value]sv{}, mem: map[string]sv{}}
+			ev := st.newEval()
 			ret := ev.runFunc(fn, []sv{{k: svString, s: in}})
 			if len(ret) != 1 || ret[0].k != svString {
 				diffs = append(diffs, fmt.Sprintf("String.PS could not be evaluated for %q (%s)", in, ev.why))
 				continue
 			}
-			back, why := decode(ret[0].s)
-			if why != "" {
-				diffs = append(diffs, fmt.Sprintf("%q is written as %q, which %s", in, ret[0].s, why))
-			} else if string(back) != in {
-				diffs = append(diffs, fmt.Sprintf("%q is written as %q, which the reader turns into %q", in, ret[0].s, string(back)))
+			out := ret[0].s
+			back, used, ok := plrmString([]byte(out + "Q"))
+			switch {
+			case !ok:
+				diffs = append(diffs, fmt.Sprintf("%q is written as %q, which is not a complete literal string (a parenthesis is left open or the text ends in a backslash)", in, out))
+			case used != len(out):
+				diffs = append(diffs, fmt.Sprintf("%q is written as %q, which contains a closing parenthesis that ends the string early", in, out))
+			case string(back) != in:
+				diffs = append(diffs, fmt.Sprintf("%q is written as %q, which the reader turns into %q", in, out, string(back)))
 			}
 		}
 	}
-	c.check(len(diffs) == 0, "LEX-WRITER", fname, "every byte is written in a form the string reader maps back to it (alone, in balanced parentheses, next to an unbalanced one)", fd.Pos(), fmt.Sprintf("%d strings evaluated against the reader's escape table", n),
+	c.check(len(diffs) == 0, "LEX-WRITER", fname, "every byte is written in a form the string reader maps back to it (alone, in balanced parentheses, next to an unbalanced one)", fn.Pos(), fmt.Sprintf("%d strings evaluated and read back by the PLRM's rules", n),
 		"String.PS ⊄ ReadString⁻¹: "+joinMax(diffs, 4))
 	// balanced parentheses are written raw (the writer does not escape more than it must)
 	{
-		ev := &ssaEval{c: c, bind: map[ssa.Value]sv{}, mem: map[string]sv{}}
+		ev := st.newEval()
 		ret := ev.runFunc(fn, []sv{{k: svString, s: "a(b)c"}})
-		c.check(len(ret) == 1 && ret[0].s == "(a(b)c)", "LEX-WRITER", fname, "balance scan counts parentheses as the reader nests them", fd.Pos(), "a(b)c → (a(b)c)", fmt.Sprintf("String.PS writes a(b)c as %v", ret))
+		c.check(len(ret) == 1 && ret[0].s == "(a(b)c)", "LEX-WRITER", fname, "balance scan counts parentheses as the reader nests them", fn.Pos(), "a(b)c → (a(b)c)", fmt.Sprintf("String.PS writes a(b)c as %v", ret))
 	}
-}
-
-func (c *Ctx) base85(info *types.Info) {
-	fd := c.funcDecl("postscript", "scanner", "ReadBase85String")
-	fname := "postscript.(*scanner).ReadBase85String"
-	var sw *ast.SwitchStmt
-	ast.Inspect(fd.Body, func(n ast.Node) bool {
-		if s, ok := n.(*ast.SwitchStmt); ok && s.Tag == nil && sw == nil {
-			sw = s
-		}
-		return true
-	})
-	if sw == nil {
-		c.fail("LEX-A85", fname, "digit classifier", fd.Pos(), "classifier switch not found")
-		return
-	}
-	var bvar, posVar, valVar types.Object
-	for _, cc := range sw.Body.List {
-		for _, e := range cc.(*ast.CaseClause).List {
-			if v := singleByteVar(info, e); v != nil {
-				bvar = v
-			}
-		}
-	}
-	ast.Inspect(fd.Body, func(n ast.Node) bool {
-		if vs, ok := n.(*ast.ValueSpec); ok && len(vs.Names) == 1 {
-			if bt, ok := info.TypeOf(vs.Names[0]).Underlying().(*types.Basic); ok {
-				switch bt.Kind() {
-				case types.Int:
-					if posVar == nil {
-						posVar = info.Defs[vs.Names[0]]
-					}
-				case types.Uint32:
-					valVar = info.Defs[vs.Names[0]]
-				}
-			}
-		}
-		return true
-	})
-	if bvar == nil || posVar == nil || valVar == nil {
-		c.fail("LEX-A85", fname, "digit classifier", sw.Pos(), "byte/position/value variables not identified")
-		return
-	}
-	var diffs []string
-	for _, pos := range []int64{0, 1} {
-		for b := 0; b < 256; b++ {
-			env := &aenv{info: info, vars: map[types.Object]aval{bvar: {i: int64(b)}, posVar: {i: pos}, valVar: {i: 1}}}
-			var out outcome
-			got := ""
-			func() {
-				defer func() {
-					if r := recover(); r != nil {
-						if _, ok := r.(evalErr); ok {
-							got = "undecided"
-							return
-						}
-						panic(r)
-					}
-				}()
-				left := env.stmt(sw, true, &out)
-				switch {
-				case left && out.kind == "break":
-					got = "end"
-				case left && out.kind == "continue":
-					got = "skip"
-				case left && out.kind == "return":
-					got = "error"
-				case len(out.appends) == 4 && env.vars[posVar].i == pos:
-					got = "zgroup"
-				default:
-					if env.vars[posVar].i == pos+1 {
-						got = fmt.Sprintf("digit %d", env.vars[valVar].i-85)
-					} else {
-						got = "other"
-					}
-				}
-			}()
-			want := "error"
-			switch {
-			case b == '~':
-				want = "end"
-			case b <= 32:
-				want = "skip"
-			case b == 'z' && pos == 0:
-				want = "zgroup"
-			case b >= '!' && b <= 'u':
-				want = fmt.Sprintf("digit %d", b-'!')
-			}
-			if got != want {
-				diffs = append(diffs, fmt.Sprintf("byte %d at group position %d: %s (expected %s)", b, pos, got, want))
-			}
-		}
-	}
-	c.check(len(diffs) == 0, "LEX-A85", fname, "ASCII85: '!'..'u' digits of radix 85, z only at a group start, white space skipped, ~ ends", sw.Pos(), "512 (byte, position) cases evaluated", "ASCII85 classifier: "+joinMax(diffs, 4))
-	// padding with 84 and group length 5
-	pad := false
-	grp := false
-	ast.Inspect(fd.Body, func(n ast.Node) bool {
-		switch n := n.(type) {
-		case *ast.BinaryExpr:
-			if n.Op == token.ADD {
-				if k, ok := constIntOf(info, n.Y); ok && k == 84 {
-					if m, ok := n.X.(*ast.BinaryExpr); ok && m.Op == token.MUL {
-						if k2, ok := constIntOf(info, m.Y); ok && k2 == 85 {
-							pad = true
-						}
-					}
-				}
-			}
-			if n.Op == token.EQL {
-				if k, ok := constIntOf(info, n.Y); ok && k == 5 {
-					if id, ok := n.X.(*ast.Ident); ok && info.ObjectOf(id) == posVar {
-						grp = true
-					}
-				}
-			}
-		}
-		return true
-	})
-	c.check(pad && grp, "LEX-A85", fname, "groups of five digits; a short final group is padded with digit 84", fd.Pos(), "pos == 5; val*85 + 84", fmt.Sprintf("ASCII85 group handling: group length 5 (%v), padding val*85+84 (%v)", grp, pad))
 }
